@@ -21,7 +21,8 @@ CONF = dict(
                 'critical sections of one lock; tied to the code by per-operation comparison of queue values/client sets, structural checks of the real queue array, floods at '
                 'the real capacity, and the lock-discipline check of the source on every run'),
     level_note=('Partial: data-race freedom of the binary (lock-discipline model + syntactic check + race detector, not a proof about the Go memory model); container/heap by contract; '
-                'the clause "queue value is exactly the newest exchange for in-order clients" is enforced by the oracle on every observation but not yet proved for the model. No axioms.'),
+                'No axioms.'),
     explanation='per-operation oracle: bounds, distinct stamps, qval >= stamps (== newest when in order), heap order, index/back-pointer consistency, sizes; flood oracle: survivors = eviction rule',
     timeout_quick=900, timeout_thorough=3000,
+    extra_thorough=[dict(cmd='c07race', race=True)],
 )
